@@ -225,6 +225,11 @@ def run(ctx):
     # ---- R7.5 "rich enough" clause of the statement: counting bound shared with C02 (R2.2)
     _c02.rank_rules(ctx, lib, gl, only_stiffness=True)
     weights_enter_rule(ctx)
+    # "lengths, areas, volumes ... are exact": no tolerance-gated shortcut between the tables and the measures
+    from ..shared import approx_guard_rule, setter_discipline_rule
+
+    approx_guard_rule(ctx, "R7.6", ["EasyFEA.FEM._group_elem", "EasyFEA.FEM._gauss"])
+    setter_discipline_rule(ctx, "R7.7", class_filter=lambda ci: ci.module.name in ("EasyFEA.FEM._group_elem", "EasyFEA.FEM._mesh"), min_instances=3)
 
 
 def weights_enter_rule(ctx):
